@@ -373,7 +373,7 @@ static inline VGM_Tag get_tags(Song& song)
 
 	// Fallback tags
 	if(!tag.author.size())
-		tag.creator = safe_get_tag(song,"#author");
+		tag.author = safe_get_tag(song,"#author");
 	if(!tag.creator.size())
 		tag.creator = safe_get_tag(song,"#programer");
 	if(!tag.creator.size())
